@@ -464,9 +464,97 @@ theorem header_second (h : Header) (more : List Tk) :
       rw [hv] at hh
       simp [printVariadic, tColon] at hh
 
-/-- the names that start the keyword dispatch of `parse_ast` -/
-def notItemKeyword (n : String) : Prop :=
-  n ≠ "alias" ∧ n ≠ "export" ∧ n ≠ "unexport" ∧ n ≠ "import" ∧ n ≠ "mod" ∧ n ≠ "set"
+theorem printHeader_shape (h : Header) (more : List Tk) :
+    printHeader h ++ more = printQuiet h.quiet ++ (.ident h.name :: (printParams h.params ++ (printVariadic h.variadic ++
+      (tColon :: (printDeps h.priors ++ (printSubsequents h.subsequents ++ (tEol :: more))))))) := by
+  simp [printHeader, List.append_assoc]
+
+/-- tokens that follow a recipe name or a parameter name and stop every look-ahead guard -/
+def safeTok (t : Tk) : Prop := t = tColon ∨ t = Tk.plus ∨ t = tAsterisk ∨ t = tDollar ∨ t = tEquals
+
+/-- the parameter part of a printed header begins with a safe token or with the name of an un-exported positional parameter -/
+theorem tail_first (ps : List Param) (v : Option Param) (more : List Tk)
+    (hps : ∀ p ∈ ps, p.kind = .singular) (hv : ∀ x, v = some x → x.kind ≠ .singular) :
+    (∃ t r, printParams ps ++ (printVariadic v ++ tColon :: more) = t :: r ∧ safeTok t)
+    ∨ (∃ p ps', ps = p :: ps' ∧ printParams ps ++ (printVariadic v ++ tColon :: more)
+          = Tk.ident p.name :: (printDefault p.default ++ (printParams ps' ++ (printVariadic v ++ tColon :: more)))) := by
+  cases ps with
+  | nil =>
+    left
+    cases v with
+    | none => exact ⟨tColon, more, by simp [printParams, printVariadic], .inl rfl⟩
+    | some x =>
+      have hk := hv x rfl
+      obtain ⟨kind, exported, name, default⟩ := x
+      cases kind with
+      | singular => exact absurd rfl hk
+      | plus => exact ⟨Tk.plus, _, by simp only [printParams, printVariadic, printParam, printKind, printDollar, printDefault, tAsterisk, tDollar, tEquals, if_true, List.nil_append, List.cons_append, List.append_assoc, List.singleton_append]; rfl, .inr (.inl rfl)⟩
+      | star => exact ⟨tAsterisk, _, by simp only [printParams, printVariadic, printParam, printKind, printDollar, printDefault, tAsterisk, tDollar, tEquals, if_true, List.nil_append, List.cons_append, List.append_assoc, List.singleton_append]; rfl, .inr (.inr (.inl rfl))⟩
+  | cons p ps' =>
+    have hk := hps p (by simp)
+    cases hx : p.exported with
+    | true =>
+      left
+      exact ⟨tDollar, _, by rw [printParams, printParam, hk, hx]; simp only [printParams, printVariadic, printParam, printKind, printDollar, printDefault, tAsterisk, tDollar, tEquals, if_true, List.nil_append, List.cons_append, List.append_assoc, List.singleton_append]; rfl, .inr (.inr (.inr (.inl rfl)))⟩
+    | false =>
+      right
+      exact ⟨p, ps', rfl, by simp [printParams, printParam, printKind, printDollar, hk, hx, List.append_assoc]⟩
+
+/-- … and what follows such a parameter name is not a string -/
+theorem after_param_first (d : Option Expr) (ps : List Param) (v : Option Param) (more : List Tk)
+    (hps : ∀ p ∈ ps, p.kind = .singular) (hv : ∀ x, v = some x → x.kind ≠ .singular) :
+    ∃ t r, printDefault d ++ (printParams ps ++ (printVariadic v ++ tColon :: more)) = t :: r ∧ (safeTok t ∨ ∃ q, t = Tk.ident q) := by
+  cases d with
+  | some e => exact ⟨tEquals, _, by simp only [printParams, printVariadic, printParam, printKind, printDollar, printDefault, tAsterisk, tDollar, tEquals, if_true, List.nil_append, List.cons_append, List.append_assoc, List.singleton_append]; rfl, .inl (.inr (.inr (.inr (.inr rfl))))⟩
+  | none =>
+    simp only [printDefault, List.nil_append]
+    rcases tail_first ps v more hps hv with ⟨t, r, h1, h2⟩ | ⟨p, ps', _, h1⟩
+    · exact ⟨t, r, h1, .inl h2⟩
+    · exact ⟨_, _, h1, .inr ⟨p.name, rfl⟩⟩
+
+theorem guards_safe (n : String) (t : Tk) (r : List Tk) (ht : safeTok t) :
+    guardIIC (.ident n :: t :: r) = false ∧ guardUnexport (.ident n :: t :: r) = false ∧ guardImport (.ident n :: t :: r) = false
+    ∧ guardMod (.ident n :: t :: r) = false ∧ guardSet (.ident n :: t :: r) = false ∧ guardAssign (.ident n :: t :: r) = false := by
+  rcases ht with rfl | rfl | rfl | rfl | rfl <;>
+    simp [guardIIC, guardUnexport, guardImport, guardMod, guardSet, guardAssign, tColon, tAsterisk, tDollar, tEquals]
+
+theorem guards_ident_safe (n p : String) (t : Tk) (r : List Tk) (ht : safeTok t) :
+    guardIIC (.ident n :: .ident p :: t :: r) = false ∧ guardUnexport (.ident n :: .ident p :: t :: r) = false
+    ∧ guardImport (.ident n :: .ident p :: t :: r) = false ∧ guardMod (.ident n :: .ident p :: t :: r) = false
+    ∧ guardSet (.ident n :: .ident p :: t :: r) = false ∧ guardAssign (.ident n :: .ident p :: t :: r) = false := by
+  rcases ht with rfl | rfl | rfl | rfl | rfl <;>
+    simp [guardIIC, guardUnexport, guardImport, guardMod, guardSet, guardAssign, tColon, tAsterisk, tDollar, tEquals]
+
+theorem guards_ident_ident (n p q : String) (t : Tk) (r : List Tk) (ht : safeTok t ∨ ∃ x, t = Tk.ident x) :
+    guardIIC (.ident n :: .ident p :: .ident q :: t :: r) = false ∧ guardUnexport (.ident n :: .ident p :: .ident q :: t :: r) = false
+    ∧ guardImport (.ident n :: .ident p :: .ident q :: t :: r) = false ∧ guardMod (.ident n :: .ident p :: .ident q :: t :: r) = false
+    ∧ guardSet (.ident n :: .ident p :: .ident q :: t :: r) = false ∧ guardAssign (.ident n :: .ident p :: .ident q :: t :: r) = false := by
+  rcases ht with (rfl | rfl | rfl | rfl | rfl) | ⟨x, rfl⟩ <;>
+    simp [guardIIC, guardUnexport, guardImport, guardMod, guardSet, guardAssign, tColon, tAsterisk, tDollar, tEquals]
+
+/-- no look-ahead guard of the keyword dispatch fires on a printed recipe header, whatever the recipe is called -/
+theorem header_guards (h : Header) (hw : WFHeader h) (hq : h.quiet = false) (more : List Tk) :
+    guardIIC (printHeader h ++ more) = false ∧ guardUnexport (printHeader h ++ more) = false ∧ guardImport (printHeader h ++ more) = false
+    ∧ guardMod (printHeader h ++ more) = false ∧ guardSet (printHeader h ++ more) = false ∧ guardAssign (printHeader h ++ more) = false := by
+  rw [printHeader_shape, hq]
+  simp only [printQuiet, Bool.false_eq_true, if_false, List.nil_append]
+  have hps := fun p hp => (hw.params p hp).1
+  have hv := fun x hx => (hw.variadic x hx).1
+  rcases tail_first h.params h.variadic _ hps hv with ⟨t, r, h1, h2⟩ | ⟨p, ps', hpe, h1⟩
+  · rw [h1]; exact guards_safe _ t r h2
+  · rw [h1]
+    have hps' : ∀ x ∈ ps', x.kind = .singular := fun x hx => hps x (by rw [hpe]; simp [hx])
+    cases hd : p.default with
+    | some e => simp only [printDefault, List.cons_append]; exact guards_ident_safe _ _ tEquals _ (.inr (.inr (.inr (.inr rfl))))
+    | none =>
+      simp only [printDefault, List.nil_append]
+      rcases tail_first ps' h.variadic _ hps' hv with ⟨t, r, h3, h4⟩ | ⟨q, ps'', hqe, h3⟩
+      · rw [h3]; exact guards_ident_safe _ _ t r h4
+      · rw [h3]
+        have hps'' : ∀ x ∈ ps'', x.kind = .singular := fun x hx => hps' x (by rw [hqe]; simp [hx])
+        obtain ⟨t, r, h5, h6⟩ := after_param_first q.default ps'' h.variadic _ hps'' hv
+        rw [h5]
+        exact guards_ident_ident _ _ _ t r h6
 
 /-- `parse_recipe` on a printed header and body block -/
 theorem parseRecipeBlock_rt (fuel : Nat) (r : Recipe) (blank : Bool) (hw : WFRecipe r) (hf : RecipeFuel fuel r) (hf1 : r.body.length + 1 < fuel)
@@ -481,7 +569,6 @@ theorem parseRecipeBlock_rt (fuel : Nat) (r : Recipe) (blank : Bool) (hw : WFRec
 structure WFRecipeItem (litLe : String → String → Bool) (attrs : List Attr) (r : Recipe) : Prop where
   wfAttrs : WFAttrs litLe attrs
   recipe : WFRecipe r
-  name : r.header.quiet = false → notItemKeyword r.header.name
   conflict : recipeConflict attrs r.body = false
 
 structure RecipeItemFuel (fuel : Nat) (attrs : List Attr) (r : Recipe) : Prop where
@@ -498,20 +585,11 @@ theorem guardAssign_false (n : String) (ts : List Tk) (h : ∀ r, ts ≠ Tk.othe
     exact absurd heq.2 (h _)
   · rfl
 
-theorem printHeader_shape (h : Header) (more : List Tk) :
-    printHeader h ++ more = printQuiet h.quiet ++ (.ident h.name :: (printParams h.params ++ (printVariadic h.variadic ++
-      (tColon :: (printDeps h.priors ++ (printSubsequents h.subsequents ++ (tEol :: more))))))) := by
-  simp [printHeader, List.append_assoc]
-
 theorem identStep_recipe (fuel : Nat) (attrs : List Attr) (acc : List Item) (eol : Bool) (h : Header) (more : List Tk)
-    (hq : h.quiet = false) (hn : notItemKeyword h.name) :
+    (hq : h.quiet = false) (hw : WFHeader h) :
     identStep fuel h.name attrs acc eol (printHeader h ++ more) = recipeStep fuel attrs acc eol (printHeader h ++ more) := by
-  obtain ⟨h1, h2, h3, h4, h5, h6⟩ := hn
-  have hg : guardAssign (printHeader h ++ more) = false := by
-    rw [printHeader_shape, hq]
-    simp only [printQuiet, Bool.false_eq_true, if_false, List.nil_append]
-    exact guardAssign_false _ _ (header_second h _)
-  simp [identStep, h1, h2, h3, h4, h5, h6, hg]
+  obtain ⟨g1, g2, g3, g4, g5, g6⟩ := header_guards h hw hq more
+  simp [identStep, g1, g2, g3, g4, g5, g6]
 
 theorem step_recipe_core (litLe : String → String → Bool) (fuel : Nat) (acc : List Item) (eol : Bool) (attrs : List Attr) (r : Recipe)
     (blank : Bool) (hw : WFRecipeItem litLe attrs r) (hf : RecipeItemFuel fuel attrs r) (rest : List Tk)
@@ -548,7 +626,7 @@ theorem step_recipe_core (litLe : String → String → Bool) (fuel : Nat) (acc 
       simp only [printQuiet, Bool.false_eq_true, if_false, List.nil_append]
       exact ⟨_, rfl⟩
     obtain ⟨more, hm⟩ := hs
-    have hid := identStep_recipe fuel attrs acc eol r.header (printBodyBlock r.body blank ++ rest) hq (hw.name hq)
+    have hid := identStep_recipe fuel attrs acc eol r.header (printBodyBlock r.body blank ++ rest) hq hw.recipe.header
     rw [hm] at hrs hid ⊢
     simp only [hid, hrs]
 
